@@ -5,6 +5,18 @@ import json, os
 V = os.path.dirname(os.path.abspath(__file__))
 
 CLAIMED = {
+ "C03": dict(cat="model_checking", ref="DESIGN.md section 5 C03",
+   text="Bounded model checking (Kani/CBMC) of process_into_buffer of the four asynchronous resamplers through the public API: concrete construction and warm-up history, then a ratio change with EVERY accepted f64 (quick: D_full for Nearest/Linear fixed-output, k/32 grid elsewhere) and ramp on/off, then a call with caller buffers of symbolic surplus length; every CBMC memory-safety, unsafe-precondition, overflow and panic check must hold and the call must return Ok. Sinc types run the real position logic against a probing interpolator that asserts the kernel contract.",
+   note="bounds per harness in the evidence (chunk 2-3, max_rel 2-3, 1 channel, histories of warm-up + 1 symbolic step); histories and sizes beyond them, AVX/SSE kernel bodies (decided under C15) and the real FFT are outside; Kani lowering/CBMC/CaDiCaL trusted",
+   technique="bounded model checking of compiled code (Kani/CBMC SAT, bit-precise floats), counterexamples replayed natively"),
+ "C04": dict(cat="model_checking", ref="DESIGN.md section 5 C04",
+   text="Same solver runs as C03 with the frame-count monitors: next<=max before every call, consumed == input_frames_next, written <= / == output_frames_next, returned count == frames actually written (sentinel oracle over the caller's backing array), nothing written beyond the advertised count.",
+   note="as C03; sentinel oracle assumes the resampler never writes the sentinel value itself (index-signal input is non-negative)",
+   technique="bounded model checking of compiled code (Kani/CBMC SAT) with sentinel-buffer oracle"),
+ "C13": dict(cat="model_checking", ref="DESIGN.md section 5 C13",
+   text="Shapes are symbolic: number of input/output slices, every slice length, mask presence/length/content; for all seven types the result must be Ok iff the shape is valid, otherwise the ResampleError of SOME violated condition with that condition's expected/actual/channel values (no check order assumed), no panic, nothing written, getters unchanged and a following valid call equal to a twin's. Constructors: every non-NaN f64 ratio/max (size-independent types), concrete offending values elsewhere.",
+   note="2 channels, chunk 2-3, fresh state (+1 history point in thorough); FFT planner stubbed; untagged panics/bounds failures in these harnesses count as C13 violations",
+   technique="bounded model checking of compiled code (Kani/CBMC SAT) over symbolic buffer shapes"),
  "C12": dict(cat="model_checking", ref="DESIGN.md section 5 C12",
    text="Bit-precise bounded model checking (Kani/CBMC) of the four asynchronous setters, the synchronous stubs and set_chunk_size through the public API: for concrete (original,max) pairs and EVERY f64 argument (NaN, infinities, subnormals, exact bounds and their neighbours) acceptance equals the documented predicate, rejections carry the right payload and change nothing; chunk sizes: every usize. Thorough adds symbolic original/max.",
    note="Kani MIR->goto lowering, CBMC float encoding, CaDiCaL; FFT planner stubbed for the sync types; quick tier fixes (original,max) to 7 awkward pairs; one-ulp sliver where the two clauses of the property disagree is excluded from the relative==absolute comparison",
